@@ -61,7 +61,7 @@ def run_case(case):
     F = fockref.get(norb)
     opts = {}
     if kind == "multislater":
-        opts["ms_ref"] = ["random", "random", "aufbau", "closed"][case["rep"] % 4] if na == nb else ["random", "random", "aufbau"][case["rep"] % 3]
+        opts["ms_ref"] = ["random", "inverted", "aufbau", "closed"][case["rep"] % 4] if na == nb else ["random", "inverted", "aufbau"][case["rep"] % 3]
         opts["ms_extra_exc"] = int(rng.integers(0, 2))
         if norb >= 5:
             opts["ms_ndets"] = 12
